@@ -152,6 +152,13 @@ func constGlobalState(g *ssa.Global, opt *Options) *State {
 	globalInitCache.Store(g, &globalInit{}) // a load met while the initializer itself is analysed stays symbolic
 	var st *State
 	if immutableGlobal(g) {
+		// never written at all, not even by the initializer (`var trace func(string)`: a hook that is off in the program
+		// as built): every load yields the zero value
+		if !globalEverStored(g) {
+			st = NewState()
+			globalInitCache.Store(g, &globalInit{st: st})
+			return st
+		}
 		if init := g.Pkg.Func("init"); init != nil && len(init.Blocks) > 0 && !HasLoop(init) {
 			o := *opt
 			inl := opt.Inline
@@ -227,3 +234,105 @@ func loadConstGlobal(addr *Term, elem types.Type, opt *Options) *Term {
 // ImmutableGlobal reports whether the unexported package-level variable g is written by its package
 // initializer only and holds a value without reference semantics.
 func ImmutableGlobal(g *ssa.Global) bool { return immutableGlobal(g) }
+
+
+var atomicNeverStoredCache sync.Map // *ssa.Global -> bool
+
+// atomicNeverStored: g is an unexported package-level atomic.Pointer[T] / atomic.Value every use of which, in every
+// function of the program, is the receiver of a call of its Load method - nothing stores to it, nothing takes its
+// address for another purpose. Load then answers nil (the hook is off) in the program as built.
+func atomicNeverStored(g *ssa.Global) bool {
+	if v, ok := atomicNeverStoredCache.Load(g); ok {
+		return v.(bool)
+	}
+	res := false
+	defer func() { atomicNeverStoredCache.Store(g, res) }()
+	if g == nil || g.Pkg == nil || g.Object() == nil || g.Object().Exported() {
+		return false
+	}
+	pt, ok := g.Type().(*types.Pointer)
+	if !ok {
+		return false
+	}
+	nt, ok := pt.Elem().(*types.Named)
+	if !ok || nt.Obj().Pkg() == nil || nt.Obj().Pkg().Path() != "sync/atomic" || nt.Obj().Name() != "Pointer" && nt.Obj().Name() != "Value" {
+		return false
+	}
+	for _, fn := range progFuncs(g.Pkg.Prog) {
+		for _, b := range fn.Blocks {
+			for _, in := range b.Instrs {
+				uses := false
+				for _, op := range in.Operands(nil) {
+					if *op == ssa.Value(g) {
+						uses = true
+					}
+				}
+				if !uses {
+					continue
+				}
+				if _, isDbg := in.(*ssa.DebugRef); isDbg {
+					continue
+				}
+				call, isCall := in.(*ssa.Call)
+				if !isCall || len(call.Call.Args) != 1 || call.Call.Args[0] != ssa.Value(g) {
+					return false
+				}
+				sc := call.Call.StaticCallee()
+				if sc == nil || sc.Name() != "Load" {
+					return false
+				}
+			}
+		}
+	}
+	res = true
+	return true
+}
+
+
+// globalEverStored: some instruction of the program stores through g or through an address derived from it.
+func globalEverStored(g *ssa.Global) bool {
+	var derived func(v ssa.Value, depth int) bool
+	derived = func(v ssa.Value, depth int) bool {
+		if depth > 8 || v.Referrers() == nil {
+			return depth > 8
+		}
+		for _, r := range *v.Referrers() {
+			switch r := r.(type) {
+			case *ssa.Store:
+				if r.Addr == v {
+					return true
+				}
+			case *ssa.IndexAddr:
+				if derived(r, depth+1) {
+					return true
+				}
+			case *ssa.FieldAddr:
+				if derived(r, depth+1) {
+					return true
+				}
+			}
+		}
+		return false
+	}
+	for _, fn := range progFuncs(g.Pkg.Prog) {
+		for _, b := range fn.Blocks {
+			for _, in := range b.Instrs {
+				switch x := in.(type) {
+				case *ssa.Store:
+					if x.Addr == ssa.Value(g) {
+						return true
+					}
+				case *ssa.IndexAddr:
+					if x.X == ssa.Value(g) && derived(x, 0) {
+						return true
+					}
+				case *ssa.FieldAddr:
+					if x.X == ssa.Value(g) && derived(x, 0) {
+						return true
+					}
+				}
+			}
+		}
+	}
+	return false
+}
